@@ -229,6 +229,10 @@ pub struct Aes128Cfb8Dec { pub key: Ghost<Seq<u8>>, pub reg: Ghost<Seq<u8>> }
 pub struct TcpStream { pub id: int }
 #[derive(Clone, Copy)]
 pub struct ParseConfig { pub include_tlvs: bool, pub allow_v1: bool, pub allow_v2: bool }
+/// proxy-header 0.1.2 `impl Default for ParseConfig`: everything on
+impl Default for ParseConfig {
+    fn default() -> (r: ParseConfig) ensures r.include_tlvs && r.allow_v1 && r.allow_v2 { ParseConfig { include_tlvs: true, allow_v1: true, allow_v2: true } }
+}
 #[derive(Clone, Copy)]
 pub struct ProxiedAddress { pub source: SocketAddr, pub destination: SocketAddr }
 pub struct ProxyHeader { pub addr: Option<ProxiedAddress> }
